@@ -2,10 +2,23 @@ import IrVerif.Props.C01
 open IrVerif.Kernel
 #print axioms C01_init
 #print axioms C01_step
+#print axioms C01_mutation_faithful
+#print axioms C01_rename_faithful
 #print axioms C01_step_conv
 #print axioms C01_step_any
 #print axioms C01_history
 #print axioms C01_history_from
+#print axioms C01_use_iff
+#print axioms C01_uses_nodup
+#print axioms C01_producer_iff
+#print axioms C01_node_iff
+#print axioms C01_nodes_nodup
+#print axioms C01_input_iff
+#print axioms C01_output_iff
+#print axioms C01_initializer_iff
+#print axioms C01_initializer_key
+#print axioms C01_roots
+#print axioms C01_counters
 #print axioms C01_node_sequence_refined
 #print axioms C01_node_sequence_history
 #print axioms C01_graph_calls_use_seq
